@@ -35,6 +35,8 @@ def configs(tier, seed):
               events=big, off_season=True, lead=12, irr={"method": 5, "kw": {"depth": 4, "AppEff": 80, "WetSurf": 50, "MaxIrrSeason": 150}}),
             S("Barley", "ClayLoam", seed=seed + 18, events=big, field={"curve_number_adj": True, "curve_number_adj_pct": 25, "mulches": True, "mulch_pct": 60, "f_mulch": 0.7},
               gw={"water_table": "Y", "dates": ["2001/04/20", "2001/08/01"], "values": [1.1, 0.7]}, irr={"method": 1, "kw": {"SMT": [40, 55, 70, 35], "MaxIrr": 12, "AppEff": 75}})]
+    # a share of the pairwise covering array over the configuration dimensions
+    out += L.pairwise_cases(seed, part=(seed + 7) % 26, parts=26) if tier != "thorough" else L.pairwise_cases(seed, part=seed % 3, parts=3)
     if tier == "thorough":
         out += L.diverse(rnd, 60, focus="no_restrictive")
     return out
